@@ -1,8 +1,6 @@
 import PlumVerif.Generated.PyCodeTypes
 import PlumVerif.Proofs.PyLemmas
 import PlumVerif.Props.C19
-import PlumVerif.Props.TieParams
-import PlumVerif.Props.TieRequests
 /-
 Tie: the Lean definitions translated from the SOURCE TEXT of the struct-backed integer classes of
 `pyplumio/helpers/data_types.py` (`SignedChar … UInt64`: `DataType.__init__ / from_bytes / to_bytes / value`,
@@ -30,13 +28,25 @@ def argV : Option Int → V
   | some v => .int v
   | none => .none
 
+/-- the prelude's little-endian coders are the model's (proved here again so that this module does not depend on
+the tie modules of other areas) -/
+theorem decodeLE_eq (bs : List UInt8) : Py.decodeLE bs = PlumVerif.decodeLE bs := by
+  induction bs with
+  | nil => rfl
+  | cons b r ih => simp [Py.decodeLE, PlumVerif.decodeLE, ih]
+
+theorem encodeLE_eq (n k : Nat) : Py.encodeLE n k = PlumVerif.encodeLE n k := by
+  induction k generalizing n with
+  | zero => rfl
+  | succ k ih => simp [Py.encodeLE, PlumVerif.encodeLE, ih]
+
 theorem struct_pack_int (t : IntTy) (fmt : String) (hf : fmt = t.format) (v : Int) :
     PyT.struct_pack fmt (.int v) = (match (intCodec t).pack v with
       | some b => .ok (.bytes b) | none => .error .StructError) := by
   subst hf
   cases t <;>
     simp [PyT.struct_pack, PyT.fmtInfo, IntTy.format, intCodec, IntTy.inRange, IntTy.signed, IntTy.modulus,
-      IntTy.size, IntTy.toWire, toTwos, asInt?, TieRequests.encodeLE_eq]
+      IntTy.size, IntTy.toWire, toTwos, asInt?, encodeLE_eq]
   all_goals (split <;> rename_i h <;> simp [h])
 
 
@@ -46,7 +56,7 @@ theorem struct_unpack_int (t : IntTy) (fmt : String) (hf : fmt = t.format) (d : 
   subst hf
   cases t <;>
     simp [PyT.struct_unpack_from, PyT.fmtInfo, IntTy.format, intCodec, IntTy.signed, IntTy.modulus,
-      IntTy.size, IntTy.ofWire, ofTwos, TieParams.decodeLE_eq]
+      IntTy.size, IntTy.ofWire, ofTwos, decodeLE_eq]
   all_goals (split <;> rename_i h <;> simp [h])
   all_goals (split <;> rename_i h2 <;> simp [h2])
 
